@@ -19,6 +19,7 @@ def run(ck):
     ck.build_and_audit()
     specs = rt.spec_source(ck, ck.scale(6, 150))
     sessions = rt.sessions(ck, specs)
+    rt.suite_vdump(ck, sessions)
     rt.suite_wire(ck, sessions, ck.scale(15, 50), judge=True)
     rt.suite_encdec(ck, sessions, ck.scale(4, 10), judge=())
     return ck.finish(rule=RULE)
